@@ -98,6 +98,10 @@ def rule_r3(F, rep):
             d = dict(ret)
             v = d.get("0.1")
             res.add(v[2] if isinstance(v, tuple) and v[0] == "var" else "unknown")
+        # a path that ends in a panic (an assertion about the caller's cursor, say) yields no decoding result: the table is about
+        # what the decoder *returns*; whether an assertion can fire is C01's business, not a row of Table 3-7
+        if any(not x.startswith("diverge:") for x in res):
+            res = {x for x in res if not x.startswith("diverge:")}
         r = (frozenset(res), used[0])
         memo[(a0, tuple(seq[:used[0]]))] = r
         return r
